@@ -39,6 +39,29 @@ logger = logging.getLogger(__name__)
 SHA1 = 20
 
 
+def safe_join(dest: str, relpath: str) -> str:
+    """
+    Join a path taken from a metafile to the destination directory.
+
+    Parameters
+    ----------
+    dest : str
+        destination directory
+    relpath : str
+        path of a file relative to the destination directory
+
+    Returns
+    -------
+    str
+        the absolute path, or None if it is not located inside of dest.
+    """
+    base = os.path.abspath(dest)
+    full = os.path.abspath(os.path.join(base, str(relpath)))
+    if full == base or os.path.commonpath([base, full]) != base:
+        return None
+    return full
+
+
 class PathNode:
     """
     Base class representing information regarding a file included in torrent.
@@ -175,8 +198,9 @@ class PieceNode:
                 continue
             partial = pathnode.get_part(loc)
             if self._find_matches(filemap, paths[1:], data + partial):
-                dest_path = os.path.join(self.dest, pathnode.full)
-                copypath(loc, dest_path)
+                dest_path = safe_join(self.dest, pathnode.full)
+                if dest_path:
+                    copypath(loc, dest_path)
                 return True
         return False
 
@@ -373,9 +397,10 @@ class Metadata(CbMixin, ProgMixin):
                 for pathnode in paths:
                     if pathnode.full not in copied:
                         copied.append(pathnode.full)
-                        dest_path = os.path.join(dest, pathnode.path)
+                        dest_path = safe_join(dest, pathnode.full)
                         self._update()
-                        self.cb(pathnode.path, dest_path, self.num_pieces)
+                        if dest_path:
+                            self.cb(pathnode.path, dest_path, self.num_pieces)
 
     def _match_v2(self, filemap: dict, dest: str):
         """
@@ -399,7 +424,9 @@ class Metadata(CbMixin, ProgMixin):
                     if length > 0:
                         hasher = HasherV2(path, self.piece_length, True)
                     if length == 0 or entry["root"] == hasher.root:
-                        dest_path = os.path.join(dest, entry["full"])
+                        dest_path = safe_join(dest, entry["full"])
+                        if not dest_path:
+                            break
                         copypath(path, dest_path)
                         self._update()
                         self.cb(path, dest_path, self.num_pieces)
